@@ -259,6 +259,16 @@ def line_part(chk, tier):
         sc.close()
 
 
+def pure_literal(u):
+    """The symbols of a pattern that is a concatenation of literals over {a, b, LF} (else None)."""
+    if u["k"] == "lit":
+        return [u["c"]] if u["c"] in (1, 2, 14) else None
+    if u["k"] == "cat":
+        a, b = pure_literal(u["a"]), pure_literal(u["b"])
+        return None if a is None or b is None else a + b
+    return None
+
+
 def ml_part(chk, tier):
     """-U --vimgrep -b: one record per match, located at the line holding the match's start."""
     res = vlib.tlc("regex/MCGrepML", "C09_ml" if tier == "quick" else "C09_ml_deep", workers=12, timeout=7200, xmx="16g")
@@ -284,6 +294,15 @@ def ml_part(chk, tier):
             # terminator - also the last line of a file that does not end in one - and nothing between the two searches
             args = ["--no-config", "--color", "never", "-j1", "-U", "-N", "-I", "--no-heading"] + (["--multiline-dotall"] if r["scn"]["o"]["dotall"] else [])
             jobs.append({"args": args + ["-e", rr.render(r["scn"]["u"]), f, f], "_f": f, "_inp": inp, "_r": r, "_std": False, "_bare": True})
+            # the same search with the bytes renamed (LF -> NUL, b -> LF) under --null-data, for patterns made of literals only
+            # (for them the renaming is an isomorphism): records that hold line feeds, NUL as the terminator
+            lits = pure_literal(r["scn"]["u"])
+            if lits is not None and not r["scn"]["o"]["dotall"]:
+                ren = bytes.maketrans(b"\nb", b"\x00\n")
+                f0 = sc.write("z%d/f%d" % (k % 50, k), inp.translate(ren))
+                pat = "".join({1: "a", 2: "\\n", 14: "\\x00"}[c] for c in lits)
+                jobs.append({"args": ["--no-config", "--color", "never", "-j1", "-U", "--null-data", "-N", "-I", "--no-heading", "-e", pat, f0, f0],
+                             "_f": f0, "_inp": inp, "_r": r, "_std": False, "_bare": True, "_ren": ren})
         outs = rgrun.run_many(jobs)
         chk.evaluations += len(jobs)
         for j, (rc, so, se) in zip(jobs, outs):
@@ -299,8 +318,10 @@ def ml_part(chk, tier):
                     if any(m[0] < end and m[1] > pos for m in r["ms"]):
                         exp += inp[pos:e] + b"\n"
                     pos = end
+                if j.get("_ren"):
+                    exp = exp.translate(j["_ren"])
                 if so != exp + exp:
-                    chk.violation({"variant": "ml_bare_twice", "pattern": rr.render(r["scn"]["u"]), "opts": sorted(k for k, v in r["scn"]["o"].items() if v),
+                    chk.violation({"variant": "ml_bare_twice" + ("_nul" if j.get("_ren") else ""), "pattern": rr.render(r["scn"]["u"]), "opts": sorted(k for k, v in r["scn"]["o"].items() if v),
                                    "unterminated": not inp.endswith(b"\n")},
                                   {"why": {"got": repr(so[:200]), "expected": repr((exp + exp)[:200])}, "args": j["args"][:-2], "input": list(inp)})
                 else:
